@@ -46,7 +46,7 @@ def unescape(s):
 
 
 class Event:
-    __slots__ = ("pid", "call", "args", "ret", "err", "paths", "raw", "mark")
+    __slots__ = ("pid", "call", "args", "ret", "err", "paths", "raw", "mark", "resolved")
 
     def __repr__(self):
         return "%s %s(%s)=%s" % (self.pid, self.call, self.args[:200], self.ret)
@@ -80,6 +80,12 @@ def parse(path):
             e.paths = [unescape(s) for s, _ in _str.findall(args)]
             # -y decorations: 3</path/to/file>
             e.paths += re.findall(r"\d+<([^>]*)>", args)
+            # dirfd-relative names resolved against the decorated directory: (AT_FDCWD</cwd> | 7</dir>), "name"
+            e.resolved = []
+            for m2 in re.finditer(r'(?:AT_FDCWD(?:<([^>]*)>)?|\d+<([^>]*)>),\s*"((?:[^"\\]|\\.)*)"', args):
+                base = m2.group(1) or m2.group(2) or ""
+                name = unescape(m2.group(3))
+                e.resolved.append(name if name.startswith("/") or not base else os.path.join(base, name))
             e.mark = None
             events.append(e)
     return events
